@@ -1,22 +1,23 @@
 (* Exhaustive sweep 2 (65 536 byte pairs, exact binary32): demultiply followed by multiply is the
    identity on every valid premultiplied channel (c <= a), with error 0. *)
-From RV Require Import Model.F32 Gen.PixelTables Model.Pixel Proofs.PixelBase.
+From RV Require Import Model.F32.
+From RV Require Import Gen.PixelTables.
+From RV Require Import Model.Pixel.
+From RV Require Import Proofs.PixelBase.
 Local Open Scope Z_scope.
 
-Definition roundtrip_sweep : bool :=
-  forallb (fun a => let ma := multiply_alpha_a a in let da := demultiply_alpha_a a in
-                    forallb (fun c => (a <? c) || (multiply_alpha_ch (demultiply_alpha_ch c da) ma =? c)) bytes) bytes.
-
-Lemma roundtrip_sweep_true : roundtrip_sweep = true.
+Lemma roundtrip_sweep_true :
+  sweep_let (fun a => (multiply_alpha_a a, demultiply_alpha_a a))
+            (fun c a f => (a <? c) || (multiply_alpha_ch (demultiply_alpha_ch c (snd f)) (fst f) =? c)) = true.
 Proof. vm_compute. reflexivity. Qed.
 
 Lemma mul_demul_id : forall c a, is_byte c -> is_byte a -> c <= a -> mul_alpha (demul_alpha c a) a = c.
 Proof.
   intros c a Hc Ha Hca.
-  pose proof (sweep2 (fun c a => (a <? c) || (mul_alpha (demul_alpha c a) a =? c)) roundtrip_sweep_true c a Hc Ha) as H.
-  cbv beta in H. apply orb_true_iff in H. destruct H as [H|H].
+  pose proof (sweep_let_spec _ _ roundtrip_sweep_true c a Hc Ha) as H.
+  cbv beta in H. cbn [fst snd] in H. apply orb_true_iff in H. destruct H as [H|H].
   - apply Z.ltb_lt in H. lia.
-  - apply Z.eqb_eq in H. exact H.
+  - apply Z.eqb_eq in H. unfold mul_alpha, demul_alpha. exact H.
 Qed.
 
 Lemma px_roundtrip : forall p, byte_px p -> valid_px p -> px_multiply (px_demultiply p) = p.
